@@ -125,6 +125,12 @@ def cases(tier, seed):
     for kind in ('arr:u2', 'arr:f8', 'fcs:16', 'fcs:F', 'rfi:lin', 'sub:slice'):
         for k in (1, 2, 3, 4, 5):
             yield dict(kind='wide', container=kind, k=k, tier=tier)
+    # channel names that read like something else: strings of digits (a detector called '1' is not position 1), names with blanks,
+    # commas and slashes (filter names), a name that is the text of a negative position
+    for naming in ('digits', 'filters'):
+        for kind in ('fcs:16', 'fcs:F'):
+            for k in (1, 2, 3):
+                yield dict(kind='wide', container=kind, k=k, tier=tier, naming=naming)
 
 
 WIDE = [[3, 40, 500, 6, 70], [5, 10, 300, 2, 90], [4, 30, 100, 9, 20], [8, 20, 700, 1, 50]]      # 4 events x 5 channels, every column different
@@ -136,7 +142,10 @@ def run_wide(c):
     import FlowCal
     res = Result()
     kind, k = c['container'], c['k']
-    obj, sp, vals = make_container(kind, WIDE, 'pos')
+    NAMINGS = {'ch': ['CH%d' % (j + 1) for j in range(5)], 'digits': ['1', '2', '3', '4', '0'],
+               'filters': ['B530/30-A', 'Comp-PE, A', 'FL 3', '-1', 'FL 3 ']}
+    nm = NAMINGS[c.get('naming', 'ch')]
+    obj, sp, vals = make_container(kind, WIDE, 'pos', names=nm if c.get('naming') else None)
     named = not kind.startswith('arr')
     D = 5
     cols = [tuple(r[j] for r in vals) for j in range(D)]
@@ -149,8 +158,10 @@ def run_wide(c):
     for sel in lists:
         forms = [list(sel), [j - D for j in sel], tuple(sel)]
         if named:
-            forms += [['CH%d' % (j + 1) for j in sel], [('CH%d' % (j + 1)) if (i + j) % 2 else j for i, j in enumerate(sel)],
-                      tuple(('CH%d' % (j + 1)) if (i + j) % 2 == 0 else j for i, j in enumerate(sel))]
+            forms += [[nm[j] for j in sel], [nm[j] if (i + j) % 2 else j for i, j in enumerate(sel)],
+                      tuple(nm[j] if (i + j) % 2 == 0 else j for i, j in enumerate(sel))]
+            if len(sel) == 1:
+                forms += [nm[sel[0]], sel[0]]            # a single channel asked for as a scalar
         for form in forms:
             for st in STATS:
                 if 'only' in c and c['only'] != [list(sel), repr(form), st]:
@@ -168,6 +179,11 @@ def run_wide(c):
                 if repr(form) != fr:
                     res.violation('wide:%s:%s:channel-argument-changed' % (st, kind), 'stats.%s(%s, channels=%s) changed the caller\'s channel list to %r' % (st, kind, fr, form), one)
                     continue
+                if not isinstance(form, (list, tuple)):
+                    if v.shape != ():
+                        res.violation('wide:%s:%s:shape' % (st, kind), 'stats.%s(%s with 5 channels, channels=%s) returned shape %s for a single channel' % (st, kind, fr, v.shape), one)
+                        continue
+                    v = v.reshape(1)
                 if v.shape != (len(sel),):
                     res.violation('wide:%s:%s:shape' % (st, kind), 'stats.%s(%s with 5 channels, channels=%s) returned shape %s' % (st, kind, fr, v.shape), one)
                     continue
@@ -229,7 +245,7 @@ def matrix(alpha, N, D, idx):
     return [cells[i * D:(i + 1) * D] for i in range(N)]
 
 
-def make_container(kind, M, alpha):
+def make_container(kind, M, alpha, names=None):
     """-> (object, held_single_precision, values as python numbers) or None if not applicable."""
     import FlowCal
     N, D = len(M), len(M[0])
@@ -261,6 +277,9 @@ def make_container(kind, M, alpha):
         if D == 5:
             # channel labels ($PnS) that read like the NAMES of other channels: statistics are asked for by name, never by label
             lay['extra'] = [('$P1S', 'CH4'), ('$P2S', 'CH5'), ('$P3S', 'other'), ('$P4S', 'CH1')]
+        if names:
+            lay['names'] = list(names)
+            lay['extra'] = [('$P1S', names[3]), ('$P2S', names[4]), ('$P3S', 'other'), ('$P4S', names[0])]
         path = os.path.join(scratch(), 'c12.fcs')
         buf, _ = fcsgen.build(lay)
         with open(path, 'wb') as f:
